@@ -513,6 +513,34 @@ func singleLaws(r *fw.R, cm canvas.Matrix, am oracle.Aff) {
 	if d := math.Abs(cm.Det() - am.Det()); !(d <= 1e-12*math.Max(1, math.Abs(am.Det()))) {
 		viol(r, nil, "matrix-det", fmt.Sprintf("Det=%g expected %g", cm.Det(), am.Det()))
 	}
+	// the classification predicates, from the singular values of the linear part (computed here from
+	// the oracle's matrix): a translation has the identity as linear part, a rigid map has both
+	// singular values 1, a similarity has equal singular values; matrices within 1e-6 of a border
+	// of a class are not judged
+	{
+		e := am.A*am.A + am.C*am.C
+		g := am.B*am.B + am.D*am.D
+		f := am.A*am.B + am.C*am.D
+		mid, rad := (e+g)/2, math.Hypot((e-g)/2, f)
+		s1, s2 := math.Sqrt(mid+rad), math.Sqrt(math.Max(0, mid-rad))
+		scale := math.Max(1, s1)
+		clear := func(v float64) bool { return math.Abs(v) > 1e-6*scale }
+		isTr := math.Abs(am.A-1)+math.Abs(am.D-1)+math.Abs(am.B)+math.Abs(am.C) <= 1e-12
+		clearTr := isTr || clear(math.Abs(am.A-1)+math.Abs(am.D-1)+math.Abs(am.B)+math.Abs(am.C))
+		isSim := math.Abs(s1-s2) <= 1e-12*scale
+		clearSim := isSim || clear(s1-s2)
+		isRig := isSim && math.Abs(s1-1) <= 1e-12
+		clearRig := isRig || clear(s1-s2) || clear(s1-1)
+		if clearTr && cm.IsTranslation() != isTr {
+			viol(r, nil, "matrix-is-translation", fmt.Sprintf("IsTranslation()=%v for %v", cm.IsTranslation(), cm))
+		}
+		if clearSim && cm.IsSimilarity() != isSim {
+			viol(r, nil, "matrix-is-similarity", fmt.Sprintf("IsSimilarity()=%v for %v with singular values %.12g, %.12g", cm.IsSimilarity(), cm, s1, s2))
+		}
+		if clearRig && cm.IsRigid() != isRig {
+			viol(r, nil, "matrix-is-rigid", fmt.Sprintf("IsRigid()=%v for %v with singular values %.12g, %.12g", cm.IsRigid(), cm, s1, s2))
+		}
+	}
 	// Inv inverts (both sides)
 	inv := cm.Inv()
 	k := cond(am)
